@@ -2,6 +2,7 @@
 import ast
 
 from ..core import astutil as A
+from ..core import match as M
 from ..core.model import dotted
 
 META = {
@@ -18,14 +19,15 @@ def run(ctx):
     cons = P.func(MISC, "incremental_chunked")
     bld = P.func(MISC, "_build_cp_atom_payload")
     # ---- R1 -----------------------------------------------------------------
+    # the wildcard tokens the consumer gives a non-local meaning: constants looked up in a chunk's `.neg`, suffix tests on its flags
     special = set()
     for n in A.body_walk(cons.node):
-        if isinstance(n, ast.Compare) and isinstance(n.ops[0], ast.In) and isinstance(n.left, ast.Constant) and "neg" in A.unparse(n.comparators[0]):
+        if isinstance(n, ast.Compare) and isinstance(n.ops[0], ast.In) and isinstance(n.left, ast.Constant) and isinstance(n.comparators[0], ast.Attribute) and n.comparators[0].attr == "neg":
             special.add(n.left.value)
         if isinstance(n, ast.Call) and A.call_attr(n) == "endswith" and n.args and isinstance(n.args[0], ast.Constant):
             special.add(n.args[0].value)
     ctx.require(special >= {"*", "_*"}, f"incremental_chunked: wildcard handling not found ({special})")
-    ctx.check("R1", cons, any("clear()" in A.unparse(s) for s in A.body_walk(cons.node) if isinstance(s, ast.Expr)), "consumer-star-clears", "the consumer clears everything earlier on a '*' negation")
+    ctx.check("R1", cons, M.has(cons.node, "for $c in iterables:\n    if '*' in $c.neg:\n        orig.clear()"), "consumer-star-clears", "the consumer clears everything earlier on a '*' negation")
     consts = set(A.str_constants(bld.node))
     for tok in sorted(special):
         ctx.check("R1", bld, any(tok == c or (tok == "_*" and c.endswith("_*")) for c in consts), f"rewriter-knows:{tok}",
@@ -40,20 +42,26 @@ def run(ctx):
     tok = sp.params()[0]
     sl = [n for n in A.body_walk(sp.node) if isinstance(n, ast.Subscript) and A.unparse(n.value) == tok and isinstance(n.slice, ast.Slice)]
     ctx.require(len(sl) >= 2, "package_use_splitter: token slices not found")
+    # the start index is located by its role: it starts at 0 and the scan over the tokens moves it to the position of a bare '-*'
+    scan = M.one(sp.node, "$start = 0\nfor $idx, $flag in enumerate($_):\n    if $flag == '-*':\n        $start = $idx")
+    start = scan["start"] if scan else None
     for n in sl:
         lo = A.unparse(n.slice.lower) if n.slice.lower is not None else None
-        ctx.check("R2", sp, lo == "start_idx", f"slice-from-reset@{A.unparse(n)}", f"`{A.unparse(n)}` starts at the index of the last bare '-*'",
+        ctx.check("R2", sp, start is not None and lo == start, f"slice-from-reset@{A.unparse(n)}", f"`{A.unparse(n)}` starts at the index of the last bare '-*'",
                   f"package_use_splitter emits `{A.unparse(n)}`: flags written before a bare '-*' on the same line are emitted again and stay enabled", node=n)
-    reset = [n for n in A.body_walk(sp.node) if isinstance(n, ast.If) and A.unparse(n.test) == "flag == '-*'"]
-    ctx.check("R2", sp, len(reset) >= 2 and any(A.unparse(s) == "start_idx = idx" for s in reset[0].body), "reset-index", "a bare '-*' moves the start index to itself")
-    inner = [r for r in reset[1:]]
+    reset = [m.node for m in M.find(sp.node, "if $f == '-*':\n    ...")]
+    outer_m = M.one(sp.node, "if $flag == '-*':\n    $start = $idx", scan.env) if scan else None
+    ctx.check("R2", sp, len(reset) >= 2 and outer_m is not None, "reset-index", "a bare '-*' moves the start index to itself")
+    inner = [r for r in reset if outer_m is None or r is not outer_m.node]
     ok = False
+    group_pat = M.pat("if $f == '-*':\n    $buf.clear()\n    yield f'-{$$group}_*'")
     for r in inner:
         ys = [y for s_ in r.body for y in ast.walk(s_) if isinstance(y, ast.Yield) and isinstance(y.value, ast.JoinedStr)]
         clears = [c for s_ in r.body for c in A.calls(s_) if A.call_attr(c) == "clear"]
         if ys and clears:
-            lits = [v.value for v in ys[0].value.values if isinstance(v, ast.Constant)]
-            ok = lits == ["-", "_*"]
+            g = group_pat.matches(r)
+            # ... and the buffer that is dropped is the one the group's flags are collected in and emitted from
+            ok = g is not None and M.has(sp.node, "$buf.append($_)", {"buf": g["buf"]}) and M.has(sp.node, "yield from $buf", {"buf": g["buf"]})
     ctx.check("R2", sp, ok, "group-reset", "'-*' inside a USE_EXPAND group drops the group's buffered flags and emits '-<group>_*'",
               "package_use_splitter no longer turns '-*' inside a USE_EXPAND group into '-<group>_*': the group's earlier flags (from other layers) are not cleared")
     valid = [c for c in A.calls(sp.node) if A.call_attr(c) == "is_valid_use_flag"]
@@ -63,7 +71,7 @@ def run(ctx):
     # ---- R3 identity of the shared globals list -------------------------------------------
     K = P.cls(MISC, "ChunkedDataDict")
     init = K.methods["__init__"]
-    ctx.check("R3", init, "defaultdict(partial(list, self._global_settings))" in A.unparse(init.node), "factory-captures-list", "new keys start from a copy of the live globals list (captured by the default factory)")
+    ctx.check("R3", init, M.has(init.node, "self._global_settings = []\nself._dict = defaultdict(partial(list, self._global_settings))"), "factory-captures-list", "new keys start from a copy of the live globals list (captured by the default factory)")
     for name, m in sorted(K.methods.items()):
         rebinds = [st for t, v, st in A.assignments(m.node) if A.unparse(t) == "self._global_settings"]
         if not rebinds or name == "__init__":
@@ -72,45 +80,50 @@ def run(ctx):
         ctx.check("R3", m, bool(dict_rebinds), f"rebinding-globals:{name}", f"{name} rebinds the globals list only together with the dict (freeze/optimize-frozen)",
                   f"ChunkedDataDict.{name} rebinds self._global_settings while self._dict keeps the default factory bound to the OLD list: keys first created later start from stale globals", node=rebinds[0])
     eg = K.methods["_expand_globals"]
-    inplace = [n for n in A.body_walk(eg.node) if isinstance(n, ast.Assign) and A.unparse(n.targets[0]) == "self._global_settings[:]"]
-    ctx.check("R3", eg, bool(inplace) and any(A.unparse(c.func) == "self._global_settings.extend" for c in A.calls(eg.node)), "expand-in-place", "_expand_globals extends and re-collapses the globals list in place")
+    ctx.check("R3", eg, M.has(eg.node, "self._global_settings.extend(new_globals)") and M.has(eg.node, "self._global_settings[:] = $_"), "expand-in-place", "_expand_globals extends and re-collapses the globals list in place")
     cl = K.methods["clone"]
-    t = A.unparse(cl.node)
-    ctx.check("R3", cl, "obj._global_settings = list(self._global_settings)" in t and "obj._dict[key].extend(values)" in t, "clone-copies-both", "clone copies both the per-key lists and the globals")
+    ctx.check("R3", cl, M.has(cl.node.body, "$o = self.__class__()\nfor $k, $vs in self._dict.items():\n    $o._dict[$k].extend($vs)\n$o._global_settings = list(self._global_settings)\nreturn $o"),
+              "clone-copies-both", "clone copies both the per-key lists and the globals")
     fr = K.methods["freeze"]
-    t = A.unparse(fr.node)
-    ctx.check("R3", fr, "self._dict = mappings.ImmutableDict" in t and "self._global_settings = tuple(self._global_settings)" in t, "freeze-both", "freeze freezes both")
+    ctx.check("R3", fr, M.has(fr.node, "self._dict = mappings.ImmutableDict($_)\nself._global_settings = tuple(self._global_settings)"), "freeze-both", "freeze freezes both")
     ctx.floor("R3", 5)
 
     # ---- R4 second-pass delta filter ----------------------------------------------------------
-    getter = [t.id for t, v, _ in A.assignments(bld.node) if isinstance(t, ast.Name) and A.unparse(v) == "locked.get"]
-    ctx.require(getter, "_build_cp_atom_payload: `locked.get` alias not found")
-    g = getter[0]
-    loops = [n for n in A.body_walk(bld.node) if isinstance(n, ast.For) and "reversed(l)" in A.unparse(n.iter)]
-    ctx.require(loops, "_build_cp_atom_payload: second pass not found")
-    filt = {A.unparse(t): A.unparse(v) for n in loops[-1].body if isinstance(n, ast.Assign) for t, v in [(n.targets[0], n.value)]}
-    ctx.check("R4", bld, filt.get("neg") == f"tuple((x for x in neg if {g}(x, True)))", "neg-delta", "a specific '-x' is dropped only if the collapsed global already disables x (unknown flags keep their negation)",
-              f"second pass filters negations with `{filt.get('neg')}`: a specific '-x' (or '-*') for a flag the global chunk never mentions is silently dropped")
-    ctx.check("R4", bld, filt.get("pos") == f"tuple((x for x in pos if not {g}(x, False)))", "pos-delta", "a specific 'x' is dropped only if the collapsed global already enables x",
-              f"second pass filters enables with `{filt.get('pos')}`")
-    fl = [n for n in A.body_walk(bld.node) if isinstance(n, ast.For) and not "reversed(l)" in A.unparse(n.iter) and any("ldefault" in A.unparse(s) for s in ast.walk(n))]
-    ctx.check("R4", bld, bool(fl) and "ldefault(n, False)" in A.unparse(fl[0]) and "ldefault(p, True)" in A.unparse(fl[0]), "rightmost-wins", "walking right to left, the first (rightmost) mention of a flag in a global chunk decides it")
-    ctx.check("R4", bld, any(A.unparse(n) == "i = reversed(i)" for n in A.body_walk(bld.node)), "right-to-left", "globals are traced right to left")
+    # the lock table and its two bound-method aliases are located by how they are produced, not by their names
+    tbl = M.one(bld.node, "$locked = {}\n$ldefault = $locked.setdefault")
+    E = dict(tbl.env) if tbl else {}
+    getter = M.one(bld.node, "$lget = $locked.get", E)
+    ctx.require(getter is not None, "_build_cp_atom_payload: `locked.get` alias not found")
+    second = M.find(bld.node, "for $key, $neg, $pos in reversed($l):\n    ...", getter.env)
+    ctx.require(second, "_build_cp_atom_payload: second pass not found")
+    loop, E2 = second[-1].node, second[-1].env
+    filt = {A.unparse(t): A.unparse(v) for n in loop.body if isinstance(n, ast.Assign) for t, v in [(n.targets[0], n.value)]}
+    ctx.check("R4", bld, M.has(loop.body, "$neg = tuple(($x for $x in $neg if $lget($x, True)))", E2), "neg-delta", "a specific '-x' is dropped only if the collapsed global already disables x (unknown flags keep their negation)",
+              f"second pass filters negations with `{filt.get(E2['neg'])}`: a specific '-x' (or '-*') for a flag the global chunk never mentions is silently dropped")
+    ctx.check("R4", bld, M.has(loop.body, "$pos = tuple(($y for $y in $pos if not $lget($y, False)))", E2), "pos-delta", "a specific 'x' is dropped only if the collapsed global already enables x",
+              f"second pass filters enables with `{filt.get(E2['pos'])}`")
+    # first pass: the loop over the reversed input that feeds the lock table
+    first = M.one(bld.node, "$i = reversed($i)\nfor $data in $i:\n    ...")
+    fl = None
+    if first is not None:
+        f_ = M.one(bld.node, "for $data in $i:\n    ...", first.env)
+        fl = f_.node if f_ else None
+    ctx.check("R4", bld, fl is not None and tbl is not None and M.has(fl, "for $n in $data.neg:\n    $ldefault($n, False)", {**E, "data": first["data"]}) and M.has(fl, "for $p in $data.pos:\n    $ldefault($p, True)", {**E, "data": first["data"]}),
+              "rightmost-wins", "walking right to left, the first (rightmost) mention of a flag in a global chunk decides it")
+    ctx.check("R4", bld, first is not None and M.has(bld.node, "$i = list(sequence)\n$i = reversed($i)", {"i": first["i"]}), "right-to-left", "globals are traced right to left")
     ctx.floor("R4", 4)
 
     # ---- R5 update_from_stream interleaving -----------------------------------------------------
     ufs = K.methods["update_from_stream"]
-    t = A.unparse(ufs.node)
-    i1, i2 = t.find(".extend(new_globals)"), t.find(".append(cinst)")
-    ctx.check("R5", ufs, 0 <= i1 < i2 and "x not in self._dict[cinst.key.key]" in t, "globals-before-specific", "before appending a specific chunk the key's list receives the globals it has not seen yet")
-    ctx.check("R5", ufs, "self.add_global(cinst)" in t, "globals-go-global", "a non-atom chunk is added as a global")
+    ctx.check("R5", ufs, M.has(ufs.node, "for $c in stream:\n    if $_:\n        $new = ($x for $x in self._global_settings if $x not in self._dict[$c.key.key])\n        self._dict[$c.key.key].extend($new)\n        self._dict[$c.key.key].append($c)"),
+              "globals-before-specific", "before appending a specific chunk the key's list receives the globals it has not seen yet")
+    ctx.check("R5", ufs, M.has(ufs.node, "for $c in stream:\n    if getattr($c.key, 'key', None) is not None:\n        ...\n    else:\n        self.add_global($c)"), "globals-go-global", "a non-atom chunk is added as a global")
     ag = K.methods["_add_global"]
-    loops_ = [n for n in A.body_walk(ag.node) if isinstance(n, ast.For) and A.unparse(n.iter) == "self._dict.values()"]
-    ok = bool(loops_) and any(A.call_attr(c) == "append" and A.unparse(c.args[0]) == "payload" for c in A.calls(loops_[0])) and any(A.unparse(c) == "self._expand_globals([payload])" for c in A.calls(ag.node))
+    ok = M.has(ag.node.body, "$payload = self.mk_item(...)\nfor $vals in self._dict.values():\n    $vals.append($payload)\nself._expand_globals([$payload])")
     ctx.check("R5", ag, ok, "global-reaches-all-keys", "a new global is appended to every existing key and to the globals list")
     mg = K.methods["merge"]
-    t = A.unparse(mg.node)
-    ctx.check("R5", mg, "updates.difference_update(cdict._dict)" in t and "d[key].extend(new_globals)" in t and "self._expand_globals(new_globals)" in t, "merge-globals-to-untouched", "merge appends the merged globals to the keys the merged dict did not touch")
+    ok = M.has(mg.node.body, "$d = self._dict\n$new = cdict._global_settings\nif $new:\n    $untouched = set($d)\n    $untouched.difference_update(cdict._dict)\n    for $k in $untouched:\n        $d[$k].extend($new)\n    self._expand_globals($new)")
+    ctx.check("R5", mg, ok, "merge-globals-to-untouched", "merge appends the merged globals to the keys the merged dict did not touch")
     ctx.floor("R5", 4)
 
 
